@@ -8,6 +8,9 @@ func main() {
 	installBLAS()
 	vlib.Main("C03",
 		vlib.Group{Name: "dlarft", Gen: genDlarft},
+		vlib.Group{Name: "dlasr", Gen: genDlasr},
+		vlib.Group{Name: "dlasrt", Gen: genDlasrt},
+		vlib.Group{Name: "dlartg", Gen: genDlartg},
 		vlib.Group{Name: "dsyev", Gen: genDsyev},
 		vlib.Group{Name: "dsytrd", Gen: genDsytrd},
 		vlib.Group{Name: "dst-scaled", Gen: genDstScaled},
